@@ -1,143 +1,110 @@
 (* C19 -- Modules initialise once, cycles are reported, only pub names leak.
-   Property theorems only; the loader model is Model/Modules.v, the property's vocabulary
-   (import graph, reachability, post-order, granted names, guards) Model/ModulesSpec.v, proofs
-   Proofs/ModulesProofs.v.  `run fs entry fuel` is load_modules_for_program + the entry's top
-   level; its result lists, oldest first, every top level that ran (ev_file) with what it could
-   name.  Guards: keys_ok = every dotted import path names one file and every file has one dotted
-   path, no `needs mod.symbol` fallback (decidable; implied by flat = one directory). *)
+   Property theorems only; the loader model is Model/Modules.v (the loader AFTER the repairs of
+   KF-C19-1/-2/-4/-5/-6/-7: a module is the file an import resolves to), the property's vocabulary
+   (meaning of an import, import graph, reachability, post-order, granted names) is
+   Model/ModulesSpec.v, proofs Proofs/ModulesProofs.v.  `run fs entry fuel` is
+   load_modules_for_program + the entry's top level; its result lists, oldest first, every top
+   level that ran (ev_file) with what it could name.  The theorems hold for EVERY tree: nested
+   directories, repeated file names, one file under several dotted paths, `needs mod.symbol`. *)
 From Aelys Require Import Base.Tactics Model.Modules Model.ModulesSpec Proofs.ModulesProofs.
 Local Open Scope N_scope.
 
-(* the DFS never runs out of fuel: any tree (nested directories, colliding keys, cycles of any
-   length), fuel = number of dotted paths written in the tree + 2 *)
+(* the DFS never runs out of fuel: fuel = number of files + 2 *)
 Theorem C19_no_divergence : forall fs entry fuel,
   (fuel >= fuel_bound fs)%nat -> run fs entry fuel <> Fuel.
 Proof. exact no_divergence_lemma. Qed.
 
 (* exactly once, exactly the reachable files, dependencies first, entry last *)
 Theorem C19_init_once : forall fs entry fuel evs,
-  keys_ok fs = true -> run fs entry fuel = Ok evs ->
+  run fs entry fuel = Ok evs ->
   let tr := map ev_file evs in
-  NoDup tr /\ (forall f, In f tr <-> reachable fs entry f) /\ postorder fs tr /\ (exists l, tr = l ++ [entry]).
+  NoDup tr /\ (forall f, In f tr <-> reachable fs entry f) /\ postorder fs entry tr /\
+  (exists l, tr = l ++ [entry]).
 Proof. exact init_once_lemma. Qed.
 
-Theorem C19_init_once_flat : forall fs entry fuel evs,
-  flat fs = true -> run fs entry fuel = Ok evs ->
-  let tr := map ev_file evs in
-  NoDup tr /\ (forall f, In f tr <-> reachable fs entry f) /\ postorder fs tr /\ (exists l, tr = l ++ [entry]).
-Proof. exact init_once_flat_lemma. Qed.
-
-(* a reachable cycle of any length is an error, never a completed run and never out of fuel *)
+(* a reachable cycle of any length, however its imports are spelled, is an error: never a
+   completed run and never out of fuel *)
 Theorem C19_cycle_reported : forall fs entry fuel f,
-  keys_ok fs = true -> (fuel >= fuel_bound fs)%nat ->
-  reachable fs entry f -> path_plus fs f f -> exists e tr, run fs entry fuel = Err e tr.
+  (fuel >= fuel_bound fs)%nat ->
+  reachable fs entry f -> path_plus fs entry f f -> exists e tr, run fs entry fuel = Err e tr.
 Proof. exact cycle_reported_lemma. Qed.
-
-Theorem C19_cycle_reported_flat : forall fs entry fuel f,
-  flat fs = true -> (fuel >= fuel_bound fs)%nat ->
-  reachable fs entry f -> path_plus fs f f -> exists e tr, run fs entry fuel = Err e tr.
-Proof. exact cycle_reported_flat_lemma. Qed.
 
 (* ... and it is the circular-dependency error (or the entry's symbol conflict, raised before the
    cyclic import is reached) when nothing else is wrong with the tree: every import of a reachable
    file resolves and selects pub symbols only (clean; clean_b is a decidable sufficient check) *)
 Theorem C19_cycle_circular : forall fs entry fuel f,
-  keys_ok fs = true -> clean fs entry -> (fuel >= fuel_bound fs)%nat ->
-  reachable fs entry f -> path_plus fs f f ->
+  clean fs entry -> (fuel >= fuel_bound fs)%nat ->
+  reachable fs entry f -> path_plus fs entry f f ->
   exists tr, run fs entry fuel = Err ECircular tr \/ run fs entry fuel = Err ESymbolConflict tr.
 Proof. exact cycle_circular_lemma. Qed.
 
-Theorem C19_clean_decidable : forall fs entry, clean_b fs = true -> clean fs entry.
+Theorem C19_clean_decidable : forall fs entry, clean_b fs (dir_of entry) = true -> clean fs entry.
 Proof. exact clean_b_sound. Qed.
 
-(* names: for every top level that ran, the compile-time name sets (module qualifiers, bare
-   globals) are exactly its own definitions plus what its imports grant -- pub names only, under
-   the spelling of the import form.  Entry file: granted_bare (all selected symbols).  Non-entry
-   modules: granted_bare_nested (first selected symbol only, KF-C19-6), which coincides with
-   granted_bare when each `needs .. from ..` selects one symbol (C19_nested_grants_single). *)
-Theorem C19_visibility_compile_time : forall fs entry fuel evs me,
-  keys_ok fs = true -> run fs entry fuel = Ok evs -> find_file fs entry = Some me ->
-  exists evs0 ev, evs = evs0 ++ [ev] /\ ev_file ev = entry /\ ev_key ev = [] /\
-    (forall e, In e evs0 -> ev_ok_mod fs e) /\
-    (no_std_imports me -> nonempty_symbols me -> entry_names_ok fs entry me ev).
+(* names: for every top level that ran (entry or module alike), the compile-time name sets are
+   exactly its own definitions plus what its imports grant under the spelling of the import form
+   (granted_qualifier / granted_bare), and every symbol it selects is pub in the module selected from *)
+Theorem C19_visibility_compile_time : forall fs entry fuel evs,
+  run fs entry fuel = Ok evs -> forall ev, In ev evs ->
+  names_ok fs entry ev /\ selected_are_pub fs entry (ev_file ev).
 Proof. exact visibility_lemma. Qed.
 
-Theorem C19_nested_grants_single : forall fs f m j, single_symbols m -> In j (m_imports m) ->
-  granted_bare_nested fs f j = granted_bare fs f j.
-Proof. exact nested_eq_single. Qed.
+(* hence only pub names leak: a bare name known to a top level is its own definition or a pub
+   definition of a module one of its imports means *)
+Theorem C19_only_pub_names : forall fs entry fuel evs,
+  run fs entry fuel = Ok evs -> forall ev m, In ev evs ->
+  find_file fs (ev_file ev) = Some m -> no_std_imports m -> nonempty_symbols m ->
+  forall n, In n (ev_known ev) ->
+    In n (map d_name (m_defs m)) \/
+    exists j g fm mg, In j (m_imports m) /\ meaning fs (dir_of entry) (ev_file ev) j = Some (g, fm) /\
+                      find_file fs g = Some mg /\ In n (pub_names mg).
+Proof. exact known_are_pub_lemma. Qed.
 
-(* ---- the full statements are false of the loader; concrete witnesses (all replayed against the
-        real loader from corpus/C19/) *)
+(* a qualified spelling is accepted only for a qualifier an import grants *)
+Theorem C19_qualifier_exact : forall ev q n, ~ In q (ev_aliases ev) -> probe ev (SQual q n) = None.
+Proof. exact qualifier_exact_lemma. Qed.
 
-(* two files, one dotted key: the second is never initialised and its importer reads the first's names *)
-Theorem C19_key_collision_refuted : exists fs E evs ev,
-  run fs E (fuel_bound fs) = Ok evs /\
-  reachable fs E [21;12] /\ ~ In [21;12] (map ev_file evs) /\
-  In ev evs /\ ev_file ev = [21;11] /\
-  target fs [21;11] (imp [12] FModule) = Some [21;12] /\
-  probe ev (SQual 12 40) = Some ([20;12], 40) /\ probe ev (SQual 12 41) = Some ([20;12], 41) /\
-  probe ev (SQual 12 42) = None.
-Proof. exact key_collision_refuted_lemma. Qed.
+(* ---- still false of the loader: the single VM namespace (open findings KF-C19-3, KF-C19-8).
+        Which VALUE a granted spelling reads is therefore not what the exporting module produced. *)
 
-(* one file, two dotted keys: initialised twice *)
-Theorem C19_one_file_two_keys_refuted : exists fs E evs,
-  run fs E (fuel_bound fs) = Ok evs /\ map ev_file evs = [[20;10]; [20;10]; [20;11]; [9]] /\
-  target fs E (imp [20;10] (FAlias 70)) = Some [20;10] /\ target fs [20;11] (imp [10] FModule) = Some [20;10].
-Proof. exact one_file_two_keys_refuted_lemma. Qed.
-
-(* one directory, keys fine: a private global of module 11 is handed to 12 as module 10's pub name *)
+(* a private global of module 11 is handed to 12 as module 10's pub name *)
 Theorem C19_flat_namespace_collision_refuted : exists fs E evs ev,
-  flat fs = true /\ keys_ok fs = true /\ run fs E (fuel_bound fs) = Ok evs /\
-  In ev evs /\ ev_file ev = [12] /\ target fs [12] (imp [10] (FAlias 73)) = Some [10] /\
+  run fs E (fuel_bound fs) = Ok evs /\
+  In ev evs /\ ev_file ev = [12] /\ meaning fs (dir_of E) [12] (imp [10] (FAlias 73)) = Some ([10], FAlias 73) /\
   find_file fs [11] = Some (M [] [D 40 false; D 45 true]) /\
   probe ev (SQual 73 40) = Some ([11], 40).
 Proof. exact flat_namespace_collision_refuted_lemma. Qed.
 
-(* without the guard a reachable cycle (written `needs mod.symbol`) completes *)
-Theorem C19_cycle_reported_refuted : exists fs E evs,
-  flat fs = false /\ keys_ok fs = false /\
-  reachable fs E [10] /\ path_plus fs [10] [10] /\ run fs E (fuel_bound fs) = Ok evs /\
-  map ev_file evs = [[11]; [10]; [9]].
-Proof. exact cycle_reported_refuted_lemma. Qed.
-
-(* a private name becomes usable *)
-Theorem C19_private_leak_refuted : exists fs E evs ev m,
-  run fs E (fuel_bound fs) = Ok evs /\ In ev evs /\ ev_file ev = E /\
-  find_file fs [10] = Some m /\ ~ In 42 (pub_names m) /\ probe ev (SBare 42) = Some ([10], 42).
-Proof. exact private_leak_refuted_lemma. Qed.
-
-(* a granted pub name is not usable: second selected symbol inside a module *)
-Theorem C19_nested_second_symbol_refuted : exists fs E evs ev ev',
-  flat fs = true /\ keys_ok fs = true /\ unique_defs fs = true /\
-  run fs E (fuel_bound fs) = Ok evs /\
-  In ev evs /\ ev_file ev = E /\ probe ev (SBare 42) = Some ([10], 42) /\
-  In ev' evs /\ ev_file ev' = [11] /\ In 42 (granted_bare fs [11] (imp [10] (FSymbols [40;42]))) /\
-  probe ev' (SBare 40) = Some ([10], 40) /\ probe ev' (SBare 42) = None.
-Proof. exact nested_second_symbol_refuted_lemma. Qed.
-
-(* a spelling no import form grants is accepted *)
-Theorem C19_qualifier_dropped_refuted : exists fs E evs ev,
-  flat fs = true /\ keys_ok fs = true /\ unique_defs fs = true /\
-  run fs E (fuel_bound fs) = Ok evs /\ In ev evs /\ ev_file ev = E /\
-  (forall i, In i [imp [10] (FSymbols [40])] -> granted_qualifier i = None) /\
-  probe ev (SQual 10 40) = Some ([10], 40) /\ probe ev (SQual 99 40) = Some ([10], 40).
-Proof. exact qualifier_dropped_refuted_lemma. Qed.
-
+(* 12 imported only 10 (as 70) and can name 11's pub 44 as 70.44 because 13 imported 11 as 70 *)
 Theorem C19_shared_qualifier_refuted : exists fs E evs ev,
-  flat fs = true /\ keys_ok fs = true /\ unique_defs fs = true /\
+  unique_defs fs = true /\
   run fs E (fuel_bound fs) = Ok evs /\ In ev evs /\ ev_file ev = [12] /\
   find_file fs [12] = Some (M [imp [10] (FAlias 70)] [D 46 true]) /\
-  target fs [12] (imp [10] (FAlias 70)) = Some [10] /\
+  meaning fs (dir_of E) [12] (imp [10] (FAlias 70)) = Some ([10], FAlias 70) /\
   probe ev (SQual 70 44) = Some ([11], 44).
 Proof. exact shared_qualifier_refuted_lemma. Qed.
 
-(* the guards (flat, keys_ok, clean_b) are satisfiable by non-trivial trees: a diamond with every
-   import form runs in post-order; a cycle of length 6 behind a tail is CircularDependency *)
+(* ---- the trees that refuted the property before the repairs, as regression examples *)
+Example C19_repaired_examples :
+  (exists evs ev, run w_collision E9 (fuel_bound w_collision) = Ok evs /\
+     map ev_file evs = [[20;12]; [20;10]; [21;12]; [21;11]; [9]] /\ In ev evs /\ ev_file ev = [21;11] /\
+     probe ev (SQual 12 40) = Some ([21;12], 40) /\ probe ev (SQual 12 42) = Some ([21;12], 42)) /\
+  (exists evs, run w_twokeys E9 (fuel_bound w_twokeys) = Ok evs /\ map ev_file evs = [[20;10]; [20;11]; [9]]) /\
+  (exists tr, run w_pscycle E9 (fuel_bound w_pscycle) = Err ECircular tr) /\
+  (exists tr, run w_leak E9 (fuel_bound w_leak) = Err ESymbolNotFound tr) /\
+  (exists evs ev, run w_second E9 (fuel_bound w_second) = Ok evs /\ In ev evs /\ ev_file ev = [11] /\
+     probe ev (SBare 40) = Some ([10], 40) /\ probe ev (SBare 42) = Some ([10], 42)) /\
+  (exists evs ev, run w_qual E9 (fuel_bound w_qual) = Ok evs /\ In ev evs /\ ev_file ev = E9 /\
+     probe ev (SBare 40) = Some ([10], 40) /\ probe ev (SQual 10 40) = None /\ probe ev (SQual 99 40) = None).
+Proof. exact repaired_examples_lemma. Qed.
+
+(* the hypotheses are satisfiable by non-trivial trees: a diamond with every import form runs in
+   post-order; a cycle of length 6 behind a tail is CircularDependency; both are clean *)
 Example C19_nonvacuous :
-  flat w_diamond = true /\ keys_ok w_diamond = true /\
+  clean_b w_diamond [] = true /\
   (exists evs, run w_diamond E9 (fuel_bound w_diamond) = Ok evs /\
                map ev_file evs = [[19]; [10]; [11]; [12]; [9]]) /\
-  flat w_cycle6 = true /\ keys_ok w_cycle6 = true /\ clean_b w_cycle6 = true /\
-  reachable w_cycle6 E9 [11] /\ path_plus w_cycle6 [11] [11] /\
+  clean_b w_cycle6 [] = true /\
+  reachable w_cycle6 E9 [11] /\ path_plus w_cycle6 E9 [11] [11] /\
   (exists tr, run w_cycle6 E9 (fuel_bound w_cycle6) = Err ECircular tr /\ map ev_file tr = [[19]]).
 Proof. exact nonvacuous_lemma. Qed.
